@@ -4,12 +4,36 @@
 For each: git -C /repo apply <patch>; ./check C19 <tier>; git -C /repo checkout -- .
 Evidence and replay files of these runs go to /verif/work/seeded/<id>/ (never to /verif/evidence).
 Prints a catch matrix and appends what was run to each meta.json ("checks_run").
-usage: tools/run_seeded.py [quick|thorough] [id-substring ...]
+usage: tools/run_seeded.py [quick|thorough] [--scratch] [id-substring ...]
+  --scratch: do not touch /repo; run `./check trypatch <patch> <tier>` (scratch copy of /repo and of the
+             harness) instead, so that several of these can run side by side and next to other work.
+             Results are printed but NOT recorded in meta.json (only runs against /repo itself are).
 """
 import json, os, subprocess, sys, time
 VERIF = os.path.dirname(os.path.dirname(os.path.abspath(__file__)))
 tier = sys.argv[1] if len(sys.argv) > 1 else "quick"
-filt = sys.argv[2:]
+scratch = "--scratch" in sys.argv
+filt = [a for a in sys.argv[2:] if not a.startswith("--")]
+if scratch:
+    rows = []
+    for sid in sorted(os.listdir(os.path.join(VERIF, "seeded"))):
+        if filt and not any(f in sid for f in filt):
+            continue
+        work = os.path.join(VERIF, "work", "seeded-scratch-%s" % os.environ.get("VERIF_SEED", "1"), sid)
+        os.makedirs(work, exist_ok=True)
+        for f in os.listdir(work):
+            os.remove(os.path.join(work, f))
+        t0 = time.time()
+        p = subprocess.run(["./check", "trypatch", os.path.join(VERIF, "seeded", sid, "patch.diff"), tier], cwd=VERIF,
+                           env=dict(os.environ, VERIF_REPLAY_DIR=work), capture_output=True, text=True)
+        os.makedirs(work, exist_ok=True)
+        open(os.path.join(work, "output.txt"), "w").write(p.stdout + p.stderr)
+        classes = sorted(set(json.load(open(os.path.join(work, f)))["class"] for f in os.listdir(work) if f.startswith("C19-") and f.endswith(".json")))
+        row = {"id": sid, "tier": tier, "seed": os.environ.get("VERIF_SEED", "1"), "exit": p.returncode, "classes": classes, "wall_s": round(time.time() - t0)}
+        rows.append(row)
+        print(json.dumps(row), flush=True)
+    print("caught %d / %d" % (sum(1 for r in rows if r["exit"] == 1), len(rows)))
+    sys.exit(0)
 if subprocess.run(["git", "-C", "/repo", "status", "--porcelain", "--untracked-files=no"], capture_output=True, text=True).stdout.strip():
     sys.exit("refusing: /repo has uncommitted changes")
 def revert():
